@@ -299,6 +299,14 @@ impl<T> VecQueue<T> {
 pub fn drop<T>(t: T) {
 }
 
+// std::mem::take(&mut v) on a Vec   (rule R-take)
+#[verifier::external_body]
+pub fn vec_take_all<T>(v: &mut Vec<T>) -> (r: Vec<T>)
+    ensures r@ == old(v)@, final(v)@.len() == 0,
+{
+    std::mem::take(v)
+}
+
 // ---- worker context (the fields process_write_batch reads)
 #[verifier::external_body]
 pub struct PendingLock { _p: () }
